@@ -2,7 +2,7 @@
 #[cfg(kani)]
 mod verif_c19_wit {
     use super::*;
-    use serde_json::json;
+    use serde_json::{json, Value};
 
     #[test]
     fn c19_wit_csv_formatting_keeps_the_search_error() {
@@ -26,5 +26,60 @@ mod verif_c19_wit {
             format.format_response(&mut ok).unwrap();
             assert_eq!(ok, ok_before);
         }
+    }
+
+    /// C19: "CSV output has a single header followed by rows whose columns follow the configured mapping IN HEADER ORDER": column i of a row is the value of the
+    /// column named at position i of the header -- for both orders, with column names of mixed case
+    #[test]
+    fn c19_wit_csv_row_cells_follow_the_header_order() {
+        for sorted in [false, true] {
+            let names = ["Zeta", "alpha", "Beta", "gamma", "ALPHA", "delta"];
+            let mut mapping: OrderedHashMap<String, CsvMapping> = OrderedHashMap::new();
+            let mut fields = serde_json::Map::new();
+            for (i, n) in names.iter().enumerate() {
+                mapping.insert(n.to_string(), CsvMapping::Path(format!("values.{}", n)));
+                fields.insert(n.to_string(), json!(1000 + i));
+            }
+            let format = ResponseOutputFormat::Csv { mapping, sorted };
+            let mut response = json!({ "values": fields.clone() });
+            let header = format.initial_file_contents().expect("a CSV file has a header");
+            assert!(header.ends_with('\n') && header.matches('\n').count() == 1, "the header is one line: {:?}", header);
+            let columns: Vec<&str> = header.trim_end_matches('\n').split(',').collect();
+            let row = format.format_response(&mut response).unwrap();
+            let cells: Vec<&str> = row.split(',').collect();
+            assert_eq!(columns.len(), names.len(), "every mapped column is in the header once: {:?}", columns);
+            assert_eq!(cells.len(), columns.len(), "one cell per header column");
+            for (c, cell) in columns.iter().zip(cells.iter()) {
+                assert_eq!(*cell, fields[*c].to_string(), "sorted={}: the cell under header column `{}` must hold that column's value; header {:?}, row {:?}", sorted, c, columns, cells);
+            }
+        }
+    }
+
+    /// C19: a cell is its mapping applied to the response -- a path, a sum of paths (an optional summand that is absent counts as nothing), an optional path --
+    /// and a response whose columns can all be filled is not touched
+    #[test]
+    fn c19_wit_csv_cells_are_the_mapping_applied_to_the_response() {
+        let response = json!({"a": {"b": 2.5, "c": 4.0}, "d": 10, "n": null});
+        let path = |p: &str| CsvMapping::Path(p.to_string());
+        let opt = |m: CsvMapping| CsvMapping::Optional { optional: Box::new(m) };
+        let sum = |ms: Vec<CsvMapping>| CsvMapping::Sum { sum: ms.into_iter().map(Box::new).collect() };
+        assert_eq!(path("a.b").apply_mapping(&response), Ok(json!(2.5)));
+        assert_eq!(path("d").apply_mapping(&response), Ok(json!(10)));
+        assert!(path("a.x").apply_mapping(&response).is_err(), "a missing path is reported");
+        assert_eq!(opt(path("a.x")).apply_mapping(&response), Ok(Value::Null), "an absent optional value is an empty cell, not an error");
+        assert_eq!(opt(path("a.c")).apply_mapping(&response), Ok(json!(4.0)));
+        assert_eq!(sum(vec![path("a.b"), path("a.c"), path("d")]).apply_mapping(&response), Ok(json!(16.5)));
+        assert_eq!(sum(vec![path("a.b"), opt(path("a.x")), path("d")]).apply_mapping(&response), Ok(json!(12.5)), "an absent optional summand counts as nothing");
+        assert_eq!(sum(vec![path("a.b"), path("n")]).apply_mapping(&response), Ok(json!(2.5)), "a null summand counts as nothing");
+        assert!(sum(vec![path("a.b"), path("a.x")]).apply_mapping(&response).is_err(), "a missing mandatory summand is reported");
+        // through format_response: all columns fillable => the response handed back is not touched
+        let mut mapping: OrderedHashMap<String, CsvMapping> = OrderedHashMap::new();
+        mapping.insert(String::from("total"), sum(vec![path("a.b"), opt(path("a.x")), path("d")]));
+        mapping.insert(String::from("maybe"), opt(path("a.x")));
+        let format = ResponseOutputFormat::Csv { mapping, sorted: true };
+        let mut r = response.clone();
+        let row = format.format_response(&mut r).unwrap();
+        assert_eq!(row, "null,12.5", "columns `maybe`, `total`");
+        assert_eq!(r, response, "no column failed: the response handed back must be untouched, found {}", r);
     }
 }
